@@ -47,6 +47,7 @@ ScalarsQ == <<S("int", "1"), S("str", "a"), S("str", "ab")>>
 ScalarsT == <<S("null", ""), S("bool", "true"), S("int", "1"), S("float", "1.5"), S("str", "a"), S("str", "ab"), S("str", "1")>>
 ScalarsN == <<S("null", ""), S("int", "1"), S("str", "a")>>
 Scalars1 == <<S("int", "1")>>
+Scalars2 == <<S("int", "1"), S("str", "a")>>
 Keys3 == <<S("str", "a"), S("str", "b"), S("int", "0")>>
 Keys2 == <<S("str", "a"), S("str", "b")>>
 Members2 == <<S("str", "a"), S("int", "1")>>
@@ -126,6 +127,12 @@ Sig(d, tb, O) ==
 Cap(s) == IF Len(s) > ExprCap THEN SubSeq(s, 1, ExprCap) ELSE s
 \* The terms are numbered (tsq) so that everything per term is a sequence: TLC applies functions over
 \* 1..N in constant time but searches record-valued domains.
+\* (values used inside nested set constructors are handed over as fields of a variable bound by a set
+\* constructor - pk - because TLC re-evaluates LET definitions and arguments referenced from there)
+PerOptOut(n, xs, sg, cores) ==
+  {[o |-> n, x |-> LET cs == {c \in DOMAIN cores : cores[c] = g} IN Cap(SetToSeq({xs[i] : i \in {k \in DOMAIN sg : sg[k] \in cs}})),
+    exp |-> g.exp, hit |-> g.hit, mir |-> g.mir, cls |-> g.cls, info |-> g.info, log |-> g.log, ok |-> g.ok]
+   : g \in {cores[c] : c \in DOMAIN cores}}
 PerOpt(d, xs, tabs, n) ==       \* xs[j], tabs[j]: expression text and table of the j-th terms
   LET O == OptOf(n)
       N == Len(tabs)
@@ -135,10 +142,7 @@ PerOpt(d, xs, tabs, n) ==       \* xs[j], tabs[j]: expression text and table of 
       alt == [c \in classes |-> N + 1 - (CHOOSE k \in 1..N : sg[N + 1 - k] = c)]     \* last member
       cores == [c \in classes |-> LET g == Core(d, tabs[rep[c]], O) IN
                                   [g EXCEPT !.ok = @ /\ (alt[c] = rep[c] \/ Core(d, tabs[alt[c]], O) = g)]]
-      groups == {cores[c] : c \in classes}
-  IN {[o |-> n, x |-> Cap(SetToSeq({xs[j] : j \in {i \in 1..N : cores[sg[i]] = g}})),
-       exp |-> g.exp, hit |-> g.hit, mir |-> g.mir, cls |-> g.cls, info |-> g.info, log |-> g.log, ok |-> g.ok]
-      : g \in groups}
+  IN UNION {PerOptOut(n, xs, pk.sg, pk.cores) : pk \in {[sg |-> sg, cores |-> cores]}}
 \* (pk is bound by a set constructor, not by LET or as an argument: TLC hands a lazily evaluated argument on
 \* unevaluated into every iteration of a set constructor, and would rebuild the tables for each option)
 Cases(d) ==
@@ -154,13 +158,13 @@ WriteChunks(dd, res, cs, from) ==
                                      cases |-> SubSeq(cs, from, IF from + ChunkSize - 1 > Len(cs) THEN Len(cs) ELSE from + ChunkSize - 1)])>>, IOEnv.CASES_OUT)
        /\ WriteChunks(dd, res, cs, from + ChunkSize)
 
+ShardEnv == NatVal(IOEnv.SHARD)     \* cfg: Shard <- ShardEnv lets the harness pick the shard (by seed)
 MineShard == (Len(doc) + Len(doc[Len(doc)].v) + Len(doc[Len(doc)].keys) + HashAcc(doc, 1)) % Shards = Shard
 
 Check ==
   (fresh /\ MineShard) =>
-    LET res == [j \in 1..(Len(doc) - 1) |-> ResOne(doc, j + 1)]
-        cs == SetToSeq(Cases(doc))
-    IN /\ \A j \in 1..Len(res) : res[j].ok \/ res[j].cls # ""      \* T1
-       /\ \A j \in 1..Len(cs) : cs[j].ok                           \* T2-T4
-       /\ WriteChunks(doc, res, cs, 1)
+    \A pk \in {[res |-> [j \in 1..(Len(doc) - 1) |-> ResOne(doc, j + 1)], cs |-> SetToSeq(Cases(doc))]} :   \* (bound, not LET: see PerOptOut)
+       /\ \A j \in 1..Len(pk.res) : pk.res[j].ok \/ pk.res[j].cls # ""      \* T1
+       /\ \A j \in 1..Len(pk.cs) : pk.cs[j].ok                             \* T2-T4 (+ the classing cross-check)
+       /\ WriteChunks(doc, pk.res, pk.cs, 1)
 =============================================================================
